@@ -156,6 +156,7 @@ def kill_run(policy, order):
           raise
     t = KT(name='T')
     t._running_lock.label = 'running'
+    s.emit('killed-event', id(t._killed))
 
     def starter():
       s.emit('start-call')
@@ -193,6 +194,11 @@ def judge_kill(log):
   if kc is not None and rel is not None and kc > rel:
     if 'body-exc' in idx or 'handler-exc' in idx or 'finished' not in idx:
       bad.append('a kill requested after the body returned had an effect')
+  kid = next((e[1] for e in log if e[0] == 'killed-event'), None)
+  flag = next((i for i, e in enumerate(log) if e[0] == 'set' and e[1] == kid), None)
+  acq = next((i for i, e in enumerate(log) if e[0] == 'acq' and e[1] == 'running' and e[2] == 'T'), None)
+  if flag is not None and (acq is None or flag < acq) and 'body-start' in idx:
+    bad.append('the kill flag was set before the thread took its running lock, yet the body ran (kill lost)')
   if 'handler-exc' in idx:
     bad.append('ThreadTerminationError surfaced in the finish handler, outside the body')
   if 'async_exc' in idx and 'body-exc' not in idx and 'handler-exc' not in idx:
